@@ -45,6 +45,13 @@ CHECKS = {
         "every schedule: no loss/duplication, no over-read, results = documents in order then EOF, Raw exact, handler discipline, termination under fairness; every complete "
         "behaviour is replayed by a scripted io.Reader against all reader entry points, and every profile (whole and cut at every byte) through real temporary files.",
    ref="DESIGN.md section 4, C13", technique="TLA+ spec of reader/adaptor/decoder/handler processes, TLC exhaustive over schedules incl. liveness, schedule replay with scripted io.Reader"),
+ "C18": dict(
+   text="TLA+ specification MxjOptions of the ~21 package-level option registers as a state machine with one action per setter form; TLC explores the COMPLETE reachable register "
+        "space (no depth bound) and checks idempotence of explicit setters, the documented meaning of argument-less forms, the frame of every call, mutual exclusion of the two "
+        "escaping switches and restorability (both orders). All histories of two calls and seeded random walks of 30 calls are replayed through the public setters: the code's registers "
+        "(hook VerifOptions, incl. derived lenAttrPrefix/trimRunes/special keys) must equal the specification state after EVERY call; at the end of each history every operation class "
+        "must be unaffected by resetting the registers the specification declares irrelevant for it, and after the explicit restore sequence all probes must equal a fresh process.",
+   ref="DESIGN.md section 4, C18", technique="TLA+ register state machine, complete state space in TLC, history replay with state comparison after every call"),
 }
 NOT_YET = "machinery for this property is not built yet in this round (design in DESIGN.md section 4); no claim is made"
 
